@@ -26,7 +26,29 @@ def to_int(v):
 
 def show(v):
     from ..deriv import _short
+    if isinstance(v, Matcher):
+        return repr(v)
     return _short(v)
+
+
+class Matcher:
+    """expected value given by a predicate instead of a literal"""
+
+    def match(self, actual):
+        raise NotImplementedError
+
+
+def matches(expected, actual):
+    if isinstance(expected, Matcher):
+        return expected.match(actual)
+    if isinstance(expected, dict) and isinstance(actual, dict) and any(isinstance(v, Matcher) for v in expected.values()):
+        if len(expected) != len(actual):
+            return False
+        for k, v in expected.items():
+            if k not in actual or not matches(v, actual[k]):
+                return False
+        return True
+    return deep_eq(expected, actual)
 
 
 class DeltaOracle:
@@ -116,7 +138,7 @@ class DeltaOracle:
                     ex.add("O-value", f"{self.spec.name}: {kinds}: unexpected key `{show(k)}` after `{red.prod}`",
                            f"the fold by {red.func} adds {show(k)!r}: {show(new[k])!r}, which the words of the segment do not call for "
                            "(captured under a foreign key, or a neighbour changed)", wit)
-                elif not deep_eq(expected[k], new[k]):
+                elif not matches(expected[k], new[k]):
                     ex.add("O-value", f"{self.spec.name}: {kinds}: `{k}` wrong after `{red.prod}`",
                            f"expected {k!r}: {show(expected[k])!r}, the fold by {red.func} gives {show(new[k])!r}", wit)
         elif not deep_eq(expected, new):
